@@ -42,11 +42,17 @@ AllPushes ==
     \cup {[op |-> "from_class", class |-> c, n |-> FromInt(a)] :
               c \in {Naked, Defined(P1, NB)}, a \in Amounts \cap {-1, 0}}
 
-Pushes == IF Focus = "splice" THEN SplicePushes ELSE AllPushes
+Pushes == IF Focus \in {"splice", "ir"} THEN SplicePushes ELSE AllPushes
+
+\* Focus = "ir": after the (splice) pushes, one two-step computation folded by the IR reducer
+IrChains(n) ==
+    {[op |-> o, i |-> i, j |-> j, k |-> k] : o \in {"ir_sub3", "ir_addsub", "ir_subadd"}, i \in 1..n, j \in 1..n, k \in 1..n}
+    \cup {[op |-> "ir_negsub", i |-> i, j |-> j] : i \in 1..n, j \in 1..n}
 
 Derived(n) ==
-    {[op |-> o, i |-> i, j |-> j] : o \in {"add", "sub", "relist"}, i \in 1..n, j \in 1..n}
-    \cup {[op |-> o, i |-> i] : o \in {"neg", "roundtrip"}, i \in 1..n}
+    IF Focus = "ir" THEN IrChains(n)
+    ELSE {[op |-> o, i |-> i, j |-> j] : o \in {"add", "sub", "relist"}, i \in 1..n, j \in 1..n}
+         \cup {[op |-> o, i |-> i] : o \in {"neg", "roundtrip"}, i \in 1..n}
 
 VARIABLES hist, reps, vals
 vars == <<hist, reps, vals>>
